@@ -197,6 +197,19 @@ CLAIMS = {
    note=COMMON_NOTE + "Mutex exclusion is trusted; no alias analysis in the shared-variable extraction; gids_is_member is a mutex-guarded stub in this harness (the real one is certified statically and exercised in C17/C04); TSan runs in the thorough tier (quick: only when a generated obligation breaks). Known finding F10 (rollback anomaly, design-level) is listed in known_findings.json; F11 (log latch race) found and fixed.",
    technique="Lean 4 frame/serialisability theorems over interleavings + decide over shared-variable and lock data regenerated from the C source + forced-schedule differential correspondence + ThreadSanitizer",
    ref="5/C11"),
+
+ "C13": dict(
+   text="Proof. 13 theorems (Props/C13.lean) over the client loop of m_msg_client_xfer - whose initial counter, exit tests and their order, retry assignment, back-off and which calls are retried are "
+        "regenerated from m_msg_client.c every run - composed with the daemon model (Cred.jobExec) over per-attempt fault schedules (request cut after N bytes / daemon's send fails / reply cut after "
+        "N bytes / ok): for EVERY schedule of at most 4 faults, any offsets and order, munge_decode returns SUCCESS with the fault-free payload, identity and metadata (never REPLAYED: a lost reply's "
+        "retry carries retry>0 and is exempted) and munge_encode returns the same credential; 5 faults => EMUNGE_SOCKET with every output untouched; the client never emits retry > 4 and the daemon "
+        "refuses > 5; an undeliverable first decode withdraws its record and a later fresh decode succeeds; an exempted retry whose own reply is undeliverable leaves the record; a message is "
+        "received only from a complete header+body. Tie per run: the REAL libmunge (munge_encode/munge_decode) against the real _job_exec through an in-process fault-injecting proxy, every class "
+        "sequence of 0..5 faults with offsets at message-structure boundaries (thorough: every byte offset), a probe decode after every transaction; toy build byte-exact vs model (outputs, "
+        "attempts, retry bytes seen, back-off), OpenSSL build by oracle.",
+   note=COMMON_NOTE + "connect() and sleep failures are not modelled; all attempts of one call share one environment; replies are assumed shorter than 4 GiB.",
+   technique="Lean 4 theorems over fault schedules (client loop regenerated from the C source x daemon model) + differential correspondence through a fault-injecting proxy with the real libmunge",
+   ref="5/C13"),
 }
 NA_REASON = "check not built yet (work in progress, see DESIGN.md section 7 staging)"
 
